@@ -484,7 +484,19 @@ def stage_handover(ctx, stats):
     child = ("import os,sys,time; os.write(1, bytes.fromhex(sys.argv[1])); sys.stdin.readline(); "
              "os.write(1, bytes.fromhex(sys.argv[2]) + b'|done'); time.sleep(30)")
     n = 0
+    # the model's account of the same hand-over (Sess.run2: expect()-side reads, then chunks copied by interact(), one decoder)
+    try:
+        c = consts()
+        mo = common.run_model(['SS u8 %s %d %d R=%s L=- X=%s' % (S.enc_text(LINESEP), c['eof'], c['intr'], S.enc_text(raw[:cut]), S.enc_text(raw[cut:] + b'|done')) for cut in cuts])
+        model_text = {}
+        for cut, line in zip(cuts, mo):
+            lr = line.split(' lr=')[1].split(' ls=')[0]
+            model_text[cut] = ''.join(''.join(chr(int(x)) for x in e.split(':')[2].split(',')) for e in lr.split('|') if e.startswith('w:') and e.split(':')[2] != '-')
+    except common.ModelUnavailable as e:
+        ctx.broken.append('model driver unavailable: ' + str(e)[:300]); model_text = {}
     for cut in cuts:
+        if cut in model_text and model_text[cut] != text + '|done':
+            ctx.broken.append('hand-over model: cut %d gives %r' % (cut, model_text[cut]))
         for use_poll in (False, True):
             head = raw[:cut].decode('utf-8', 'ignore')
             m, sfd = pty.openpty()
@@ -520,6 +532,8 @@ def stage_handover(ctx, stats):
                     msg = 'interact() after expect() stopped inside a character raised %s: %s' % (type(e).__name__, str(e)[:100])
                 th.join()
                 logged = ''.join(e[1] for e in rec.ev[:] if e[0] == 'w')
+                if msg is None and cut in model_text and logged != model_text[cut]:
+                    ctx.broken.append('correspondence hand-over model vs spawn.interact (cut %d): real log %r model %r' % (cut, logged, model_text[cut]))
                 if msg is None and logged != text + '|done':
                     msg = 'logfile_read over expect() then interact() holds %r, the child wrote %r (cut at byte %d)' % (logged, text + '|done', cut)
             except pexpect.ExceptionPexpect as e:
